@@ -4,8 +4,12 @@ Workflow when /repo changes the scanned files (C11_classified fails and the buil
   PANICSITES_REVIEW=/verif/work/C11/review.tsv srcfacts/target/release/srcfacts /repo /verif/work/C11/gen
   (review.tsv = site, file:line, source text), look at every new / renamed site, edit the decisions below,
   python3 srcfacts/tools/c11_mkclass.py   (prints missing / stale entries; writes coq/model/PanicClass.v)"""
-import sys, collections
-sites = [l.split('\t')[0] for l in open('/verif/work/C11/review.tsv')]
+import sys, os, collections
+REVIEW = os.environ.get('C11_REVIEW', '/verif/work/C11/review.tsv')
+OUT = os.environ.get('C11_OUT', '/verif/coq/model/PanicClass.v')
+rows = [l.rstrip('\n').split('\t') for l in open(REVIEW)]
+sites = [r[0] for r in rows]
+src_text = {r[0]: (r[2] if len(r) > 2 else '') for r in rows}
 IO  = ('L', "result of an InterfaceIO call of the node's own IO layer (saito-rust's RustIOHandler always answers Ok; an Err means the internal channel to the network controller is closed)")
 CH  = ('L', "send on an internal mpsc channel of the node: fails only when the receiving thread of this node is gone")
 CFG = ('L', "local configuration or start-up data (consensus configuration section, block files, issuance file, number of verification threads)")
@@ -77,6 +81,23 @@ exact = {
 for k in range(1,5):
     exact[RP+'on_stat_interval#%d-unwrap'%k] = STAT
     exact[CP+'on_stat_interval#%d-unwrap'%k] = STAT
+# decisions that depend on WHICH statement carries a name (ordinals shift when a fix removes an earlier site of the
+# function): (site name, substring of its source line, class); consulted before `exact`.  They make the table
+# regenerate unchanged in meaning after the proposed fixes of work/C11/fixes/*.diff are applied.
+by_text = [
+ (R+'process_ghost_chain_request#1-unwrap', 'find_peer_by_index', exact[R+'process_ghost_chain_request#1-unwrap']),
+ (R+'process_ghost_chain_request#1-unwrap', '.unwrap();', IO),
+ (V+'verify_block#2-unwrap', 'generate()', K('verify-block-generate-unwrap')),
+ (V+'verify_block#2-unwrap', '.unwrap();', CH),
+ (N+'propagate_transaction#1-unwrap', 'get_public_key', U("guarded by the get_public_key().is_none() continue above")),
+ (N+'propagate_transaction#2-unwrap', 'get_public_key', U("guarded by the get_public_key().is_none() continue above")),
+ (N+'propagate_transaction#2-unwrap', '.unwrap();', IO),
+]
+def decide(site):
+    for (n, t, c) in by_text:
+        if n == site and t in src_text.get(site, ''):
+            return c
+    return exact.get(site)
 groups = [
  (R+'process_ghost_chain#', U("all seven vectors of a GhostChainSync are built with the same count by GhostChainSync::deserialize (and by generate_ghost_chain); i ranges over prehashes.len()")),
  ('consensus::peers::peer_service::PeerService_as_TryFrom::try_from#', U("indices 0..2 after the values.len() != 3 check; the unwraps after the is_err() checks")),
@@ -115,8 +136,8 @@ out.append('(* Reviewed classification of the panic sites of the peer-facing cod
 out.append('Definition exact : list (string * cls) := [\n')
 ex=[]
 for s in sites:
-    if s in exact:
-        ex.append('  (%s,\n     %s)' % (q(s), cls(exact[s])))
+    if decide(s):
+        ex.append('  (%s,\n     %s)' % (q(s), cls(decide(s))))
         covered.add(s)
 out.append(';\n'.join(ex)); out.append('\n].\n\n')
 out.append('(* (prefix of the site name, number of sites with that prefix, class) *)\nDefinition groups : list (string * nat * cls) := [\n')
@@ -128,11 +149,11 @@ for (pfx,c) in groups:
     gr.append('  (%s, %d,\n     %s)' % (q(pfx), n, cls(c)))
 out.append(';\n'.join(gr)); out.append('\n].\n')
 missing=[s for s in sites if s not in covered]
-stale=[k for k in exact if k not in sites]
+stale=[k for k in exact if k not in sites]  # entries for sites that no longer exist are simply not written
 print('sites',len(sites),'exact',len(ex),'groups',len(gr),'missing',missing,'stale',stale, file=sys.stderr)
 cnt=collections.Counter()
 for s in sites:
-    c = exact.get(s) or next(c for (p,c) in groups if s.startswith(p))
+    c = decide(s) or next(c for (p,c) in groups if s.startswith(p))
     cnt[c[0]]+=1
 print(dict(cnt), file=sys.stderr)
 out.append('''
@@ -188,4 +209,4 @@ Definition class_counts (sites : list string) : nat * nat * nat * nat :=
    List.length (filter (fun s => is_local (classify s)) sites),
    List.length (filter (fun s => is_known (classify s)) sites)).
 ''')
-open('/verif/coq/model/PanicClass.v','w').write(''.join(out))
+open(OUT,'w').write(''.join(out))
